@@ -26,10 +26,47 @@ static int one(const uint8_t tape[32], uint64_t clock, unsigned f, struct res *r
     if (bad) { char key[64]; snprintf(key, sizeof key, "c18:tape:%s", what); res_viol(r, key, rep, "%s", bad); return 1; }
     r->validated++; r->cls[0]++; return 0;
 }
+/* a dependency table whose normalisers do nothing (an application may inject NFD, or nothing at all for ASCII-only use): whatever
+ * normalisation happens is the injected function's; the library adds none of its own.  Decoders against the reference decoder told
+ * the same; encode emits the stored words joined by the language's separator; crypt hands the raw password to the KDF */
+static size_t id_norm(const char *s, polyseed_str o) { if (s >= o && s < o + PSTR) { memset(o, 0xEE, PSTR); o[0] = 0; return 0; } memset(o, 0xEE, PSTR); size_t n = strnlen(s, CAP); memcpy(o, s, n); o[n] = 0; return n; }
+static size_t id_nfc(const char *s, polyseed_str o) { E.n_nfc++; return id_norm(s, o); }
+static size_t id_nfkd(const char *s, polyseed_str o) { E.n_nfkd++; return id_norm(s, o); }
+static void foreign_normaliser(struct res *r) {
+    polyseed_dependency d = DEPS[0]; d.u8_nfc = id_nfc; d.u8_nfkd = id_nfkd; polyseed_inject(&d); polyseed_enable_features(7); REF_NORMALISER = 1;
+    rseed s; memset(&s, 0, sizeof s); for (int i = 0; i < 19; i++) s.secret[i] = (uint8_t)(0x6D + 23 * i); s.secret[18] &= 0x3F; s.birthday = 222; s.features = 1;
+    polyseed_data *sd = seed_from_ref(&s); uint8_t st0[32]; ref_storage(&s, st0);
+    for (int li = 0; li < R_NLANG && sd; li++) {
+        for (int form = 0; form < 3; form++) {
+            char ph[2048]; ref_phrase(&s, li, 33, ph, form); if (strlen(ph) >= CAP) continue;
+            for (int k = 0; k < 2; k++) {
+                polyseed_data *dd = NULL; const polyseed_lang *lo = NULL; env_clear_log();
+                int st = k ? polyseed_decode_explicit(ph, 33, polyseed_get_lang(li), &dd) : polyseed_decode(ph, 33, &lo, &dd); r->calls++; r->cases++;
+                rseed rs; int want = ref_decode(ph, 33, k ? li : -1, 7, 0, CAP, &rs, NULL);
+                uint8_t g[32]; memset(g, 0, 32); if (st == POLYSEED_OK) { polyseed_store(dd, g); polyseed_free(dd); }
+                char rep[64], key[64]; snprintf(rep, sizeof rep, "norm %d %d %d", li, form, k); snprintf(key, sizeof key, "c18:own-normalisation:%s", RL[li].code);
+                if (st != want || (st == POLYSEED_OK && memcmp(g, st0, 32))) res_viol(r, key, rep, "identity normalisers injected, %s phrase in form %d (%s): %s returned %d, the reference decoder working on the un-normalised string %d - the library normalised (or failed to use) something itself", RL[li].name_en, form, form == 0 ? "as emitted" : form == 1 ? "decomposed, raw separator" : "NFKD", k ? "decode_explicit" : "decode", st, want);
+                else { r->validated++; r->cls[0]++; }
+            }
+        }
+        polyseed_str out; size_t n = polyseed_encode(sd, polyseed_get_lang(li), 33, out); r->calls++; r->cases++;
+        char want[2048]; size_t wn = ref_phrase(&s, li, 33, want, RL[li].compose ? 1 : 0);
+        if (n != wn || memcmp(out, want, wn + 1)) { char rep[64], key[64]; snprintf(rep, sizeof rep, "norm %d 9 0", li); snprintf(key, sizeof key, "c18:own-normalisation-encode:%s", RL[li].code); res_viol(r, key, rep, "identity normalisers injected: the %s phrase is not the stored words joined by the separator (the library composed or decomposed something itself)", RL[li].name_en); }
+        else { r->validated++; r->cls[0]++; }
+    }
+    if (sd) { static const char *PW[3] = { "pass\xC3\xA9\xE3\x80\x80x", "\xEF\xBD\xB6\xC2\xB5", "e\xCC\x81" };
+        for (int i = 0; i < 3; i++) { env_clear_log(); polyseed_crypt(sd, PW[i]); r->calls++; r->cases++; size_t l = strlen(PW[i]);
+            if (E.n_kdf != 1 || E.kdf.pwlen != l || memcmp(E.kdf.pw, PW[i], l)) res_viol(r, "c18:own-normalisation-password", "norm 0 8 0", "identity normalisers injected: the KDF did not receive the password bytes as given (%zu bytes received, %zu given)", E.kdf.pwlen, l); else { r->validated++; r->cls[0]++; } }
+        polyseed_free(sd); }
+    REF_NORMALISER = 0; inject(0); polyseed_enable_features(7);
+    res_sample(r, "identity u8_nfc / u8_nfkd injected: 10 languages x 3 spellings x both decoders, encode, crypt");
+}
+
 int main(int argc, char **argv) {
     int a = common_args(argc, argv);
     ref_init(VERIF_ROOT); sec_mark_initial(); env_init(); inject(0); polyseed_enable_features(7);
     struct res *r = calloc(1, sizeof *r);
+    if (a < argc && !strcmp(argv[a], "norm")) { foreign_normaliser(r); for (int i = 0; i < r->nviol && i < 4; i++) printf("REPRODUCED %s: %s\n", r->v[i].key, r->v[i].msg); return r->nviol ? 1 : 0; }
     if (a < argc && !strcmp(argv[a], "case")) { uint8_t t[32]; unhexn(argv[a + 1], t, 32); one(t, strtoull(argv[a + 2], NULL, 10), atoi(argv[a + 3]), r, "replay"); for (int i = 0; i < r->nviol; i++) printf("REPRODUCED %s: %s\n", r->v[i].key, r->v[i].msg); return r->nviol ? 1 : 0; }
     uint8_t t[32];
     for (int b = 0; b < 152; b++) { memset(t, 0, 32); t[b / 8] |= (uint8_t)(0x80 >> (b % 8)); one(t, R_EPOCH + 5 * R_STEP, 0, r, "single-bit"); }
@@ -41,8 +78,11 @@ int main(int argc, char **argv) {
     { static const uint64_t BIG[] = { R_EPOCH + (1ULL << 32), R_EPOCH + (1ULL << 32) + 12345678, (1ULL << 33) + 5, 1ULL << 40, (1ULL << 63) + 77, UINT64_MAX - 1, R_EPOCH + 1024 * R_STEP, R_EPOCH + 1024 * R_STEP - 1 };
       for (unsigned i = 0; i < sizeof BIG / sizeof *BIG; i++) { memset(t, 0x42 + (int)i, 32); t[3] = (uint8_t)i; one(t, BIG[i], i & 7, r, "large-clock"); } }
     memset(t, 0, 32); one(t, 0, 0, r, "zero"); memset(t, 0xFF, 32); one(t, UINT64_MAX, 7, r, "ones");
+    /* the birthday comes from the injected clock at every month boundary (the second before, the first second) */
+    for (long k = 0; k <= 1030; k++) { uint64_t b = R_EPOCH + (uint64_t)k * R_STEP; memset(t, (int)(k & 0xFF), 32); if (k) one(t, b - 1, (unsigned)k & 7, r, "month-boundary"); one(t, b, (unsigned)k & 7, r, "month-boundary"); }
     /* distinct outputs give distinct secrets: all single-bit tapes produced pairwise different secrets (implied by equality with the tape) */
     res_sample(r, "tape with only bit b set (b=0..151), clock=epoch+5 months -> store bytes 10..28 equal the tape, top two bits of byte 18 dropped");
-    out_begin(); out_part("single-bit / single-zero-bit tapes, byte-18 pairs and values, bytes beyond 19, extreme clocks", r, CLS, ""); out_end();
+    out_begin(); out_part("single-bit / single-zero-bit tapes, byte-18 pairs and values, bytes beyond 19, extreme clocks, month boundaries", r, CLS, "");
+    memset(r, 0, sizeof *r); foreign_normaliser(r); out_part("identity normalisers injected: the library adds no normalisation of its own", r, CLS, ""); out_end();
     return 0;
 }
